@@ -589,6 +589,12 @@ theorem normal_mle_strict (l2pi : ℝ) (xs : List ℝ) (m s : ℝ)
   have := (normal_core xs.length s sigma ((m - mu) * (m - mu)) hn hs hsig hq.le).2 hq
   linarith
 
+/-- non-vacuity of `normal_mle_is_argmax`: a sample whose fit is defined with positive spread -/
+example : normalFit Real.sqrt [1, 3] = some (2, 1) := by
+  have hm : meanL ([1, 3] : List ℝ) = 2 := by simp [meanL, cnt]; norm_num
+  have hv : meanSqDev 2 ([1, 3] : List ℝ) = 1 := by simp [meanSqDev, meanL, cnt]; norm_num
+  simp only [normalFit, hm, hv, Real.sqrt_one]
+
 /-- the log-normal log-likelihood is the normal log-likelihood of the logarithms minus `Σ log x` -/
 theorem sumLogPdf_lognormal (l2pi mu sigma : ℝ) (xs : List ℝ) :
     sumLogPdf (lognormalLogPdf Real.log l2pi mu sigma) xs =
